@@ -37,7 +37,7 @@ PROP = {'streams': [('c17', 1000, 100000)],
                  'conforms to the schema as far as the tries look (ConfRoots); BOTH ARE NOW DERIVED from the C03 / C11 notions '
                  '(manifest_sound_valid): ConfRoots from C11 conformance (confRoots_all: ConformsRequest + StoreConforms, schema SchemaClosed = '
                  'SchemaWF3 + no open entity types), SafeOps in its lazy form Sim from C03 type soundness (sim_typed), TypesUK from typeOf_cn; '
-                 'manifest_sound_valid is about the ORIGINAL policies and the typed ASTs typedAst (annotation with typeOf types + the '
+                 'manifest_sound_valid covers the core fragment plus extension function calls (FragE), is about the ORIGINAL policies and the typed ASTs typedAst (annotation with typeOf types + the '
                  'short-circuit transformations of typecheck.rs); typedAst is a specification-level definition written from typecheck.rs, '
                  'NOT diffed against the typed ASTs Rust produces (those are what the correspondence run feeds the analysis model); remaining '
                  'side conditions of manifest_sound_valid: NoRecOps (== not on records, contains not looking for a record - syntactic on the '
@@ -63,7 +63,7 @@ TEXT = ('Lean model (Cedar/Manifest.lean) mirroring entity_manifest.rs + analysi
  'to_typed and the analysis into response_sliced_static: for static policies in the fragment the response over sliceStore(manifest) equals the '
  'response over the full store, for data conforming to the schema as far as the tries look (ConfRoots); full_statement_of_fragment reduces the '
  'full statement (exclusions: typed-False environments, templates, tags, unknowns, slicer failure exits) to fragment coverage + the C03/C11 links. '
- 'manifest_sound_valid discharges both links for the C03 typechecker model and the C11 conformance notions (static policies of the fragment accepted by checkEnv strict and not typed False, conformant request/store: authorization of the original policies over sliceStore(manifest of the typed ASTs) equals authorization over the full store; the typed AST includes the short-circuit transformations of the typechecker). NOT proved: record and set literals, == on records, extension calls. The statement on the implementation (authorization over slice_entities == over the full store) is searched on generated '
+ 'manifest_sound_valid discharges both links for the C03 typechecker model and the C11 conformance notions (static policies of the fragment accepted by checkEnv strict and not typed False, conformant request/store: authorization of the original policies over sliceStore(manifest of the typed ASTs) equals authorization over the full store; the typed AST includes the short-circuit transformations of the typechecker). Extension function calls are covered by manifest_sound_valid (Sim.call1 / call2). NOT proved: record and set literals, == / contains on records. The statement on the implementation (authorization over slice_entities == over the full store) is searched on generated '
  'schema worlds with manifest-stressing policy families; two classes of genuine failures are recorded as known findings (typed-False environments; '
  'template slots).',
  'proof over a hand-written model for a stated fragment (analysis + to_typed + slicer + authorizer composed); the remaining constructs '
